@@ -23,6 +23,7 @@ of the records sent.
 -/
 import Oracle.ConnCommon
 import KafkaVerif.Model.TransportConnC17
+import KafkaVerif.Gen.ConnLegacy
 import KafkaVerif.Model.ListOffsets
 import KafkaVerif.Model.SplitMerge
 
@@ -210,7 +211,7 @@ def step (line : String) : String :=
     | ["tt", _, _, tr] =>
       match parseTrace tr with
       | some evs =>
-        let m := match TransportConn.firstRejected [] evs 0 with
+        let m := match TransportConn.firstRejected Gen.ConnLegacy.transportFacts [] evs 0 with
           | none => "accept"
           | some i => s!"reject@{i}"
         s!"model={m} holds={if noReuse evs then 1 else 0}"
